@@ -12,6 +12,7 @@ import (
 	"github.com/ChainSafe/sygma-relayer/config/relayer"
 	"github.com/creasty/defaults"
 	"github.com/imdario/mergo"
+	"github.com/mitchellh/mapstructure"
 
 	"github.com/spf13/cobra"
 	"github.com/spf13/viper"
@@ -57,7 +58,14 @@ func GetConfigFromFile(path string, config *Config) (*Config, error) {
 		return config, err
 	}
 
-	err = viper.Unmarshal(&rawConfig)
+	// viper decodes weakly typed, which lets mapstructure wrap a negative or out-of-range number into
+	// an unsigned setting (uploaderConfig.maxRetries -1 -> 2^64-1) and cut off fractions: keep viper's
+	// own hooks and refuse such numbers (see ExactNumbersHook)
+	err = viper.Unmarshal(&rawConfig, viper.DecodeHook(mapstructure.ComposeDecodeHookFunc(
+		mapstructure.StringToTimeDurationHookFunc(),
+		mapstructure.StringToSliceHookFunc(","),
+		ExactNumbersHook,
+	)))
 	if err != nil {
 		return config, err
 	}
